@@ -19,8 +19,55 @@ pub fn make_case(prop: &str, cat: &Catalog, q: &QueryExpr, tags: &[String], engi
     c
 }
 
+/// Neutraliser `nonull` (DESIGN §3.4): the same statement over the same tables with every NULL cell replaced by a
+/// fresh non-NULL value of its column (distinct from every value of that column and from each other; BOOLEAN: FALSE).
+pub fn nonull_tables(case: &Value) -> Value {
+    let mut tables = case["tables"].clone();
+    let empty = vec![];
+    for (t, meta) in case["cat"].as_array().unwrap_or(&empty).iter().enumerate() {
+        let ncols = meta["cols"].as_array().map(|a| a.len()).unwrap_or(0);
+        for c in 0..ncols {
+            let ty = meta["cols"][c]["ty"].as_str().unwrap_or("i64").to_string();
+            let rows = tables[t].as_array().cloned().unwrap_or_default();
+            let mut top: i64 = 1000;
+            for r in &rows { if let Some(i) = r[c].get("i").and_then(|x| x.as_i64()) { top = top.max(i.saturating_add(1)); } if let Some(d) = r[c].get("d").and_then(|x| x.as_i64()) { top = top.max(d + 1); } }
+            if ty == "date" { top = top.max(20000); }
+            let top = top.min(1_000_000_000);
+            let mut k = 0i64;
+            for (ri, r) in rows.iter().enumerate() {
+                if r[c].is_null() {
+                    k += 1;
+                    tables[t][ri][c] = match ty.as_str() {
+                        "i64" | "i32" => json!({"i": top + k}),
+                        "f64" => json!({"f": ((1000 + k) as f64).to_bits()}),
+                        "str" => json!({"s": format!("n{}", k)}),
+                        "date" => json!({"d": top + k}),
+                        _ => json!({"b": false}),
+                    };
+                }
+            }
+        }
+    }
+    tables
+}
+pub fn has_null(case: &Value) -> bool {
+    case["tables"].as_array().map(|ts| ts.iter().any(|t| t.as_array().map(|rs| rs.iter().any(|r| r.as_array().map(|cs| cs.iter().any(|c| c.is_null())).unwrap_or(false))).unwrap_or(false))).unwrap_or(false)
+}
+
 /// run a case (as generated or as read from a replay file) on the real engine
 pub fn run_case(case: &Value) -> Value {
+    let mut out = run_case_plain(case);
+    // `"neutral":["nonull"]` in a spec-mode case: also run the neutralised variant; the driver uses it for attribution only
+    if case["mode"].as_str() != Some("meta") && case["neutral"].as_array().map(|a| a.iter().any(|x| x == "nonull")).unwrap_or(false) && has_null(case) {
+        let mut c2 = case.clone();
+        c2["tables"] = nonull_tables(case);
+        let imp2 = run_case_plain(&c2);
+        if let Some(o) = out.as_object_mut() { o.insert("neutral_nonull".into(), json!({"tables": c2["tables"], "impl": imp2})); }
+    }
+    out
+}
+
+fn run_case_plain(case: &Value) -> Value {
     let cat = Catalog::from_case(case);
     let sql = case["sql"].as_str().unwrap_or("");
     if case["mode"].as_str() == Some("meta") {
@@ -54,6 +101,8 @@ pub fn family_main(o: &Opts, prop: &str, seed_tag: u64, default_strata: &str, de
     // `--opt strict_err=1`: an engine error counts as an oracle failure (properties that say "produces its rows")
     // `--opt strict_err=simple`: only for statements without joins / aggregates / set operations
     let strict_err = o.get("strict_err").unwrap_or("0").to_string();
+    // `--opt neutral=1`: cases over tables with NULLs also carry the outcome of the `nonull` neutralised variant
+    let neutral = o.get_usize("neutral", 0) == 1;
     let prop = o.get("prop").unwrap_or(prop).to_string();
     let mut r = Rng::new(o.seed ^ seed_tag);
     let mut cat = gen_catalog(&mut r, &copts);
@@ -67,6 +116,7 @@ pub fn family_main(o: &Opts, prop: &str, seed_tag: u64, default_strata: &str, de
         // rotate the single configuration of a spec-mode case over the list
         let one = [cfgs[n % cfgs.len()].clone()];
         let mut case = make_case(&prop, &cat, &g.q, &g.tags, g.engine_defined, if meta { &cfgs } else { &one }, meta);
+        if neutral { case["neutral"] = json!(["nonull"]); }
         let simple = !g.tags.iter().any(|t| t == "f:join" || t == "f:agg" || t == "f:setop");
         if strict_err == "1" || (strict_err == "simple" && simple) { case["strict_err"] = json!(true); }
         let imp = run_case(&case);
